@@ -512,6 +512,7 @@ Fixpoint alloc_trace (fuel : nat) (l : list N) (st : tdump * list (list N)) : li
       match l with
       | 1 :: k :: r => let st' := astep st (AStore (N.to_nat k - 1)) in enc_dump (fst st') ++ alloc_trace f r st'
       | 2 :: j :: r => let st' := astep st (ARemove (N.to_nat j)) in enc_dump (fst st') ++ alloc_trace f r st'
+      | 3 :: j :: k :: r => let st' := astep st (AReplace (N.to_nat j) (N.to_nat k - 1)) in enc_dump (fst st') ++ alloc_trace f r st'
       | _ => []
       end
   end.
@@ -543,6 +544,8 @@ Fixpoint index_trace (fuel : nat) (l : list N) (st : istate) : list N :=
       match l with
       | 1 :: k :: kn :: a :: r => let st' := istep st (ISet k kn a) in enc_index st' ++ index_trace f r st'
       | 2 :: k :: kn :: r => let st' := istep st (IRemove k kn) in enc_index st' ++ index_trace f r st'
+      | 11 :: k :: kn :: a :: r => index_trace f r (istep st (ISet k kn a))      (* changes inside a transaction: no dump in between *)
+      | 12 :: k :: kn :: r => index_trace f r (istep st (IRemove k kn))
       | 3 :: r => let st' := istep st IReindex in enc_index st' ++ index_trace f r st'
       | 4 :: r => let st' := istep st IRestart in enc_index st' ++ index_trace f r st'
       | _ => []
@@ -577,6 +580,8 @@ Fixpoint btree_trace (fuel : nat) (l : list N) (st : nat * btn) : list N :=
       match l with
       | 1 :: k :: r => let st' := bstep st (BSet k) in N.of_nat (fst st') :: enc_btn (S (S (fst st'))) (fst st') (snd st') ++ btree_trace f r st'
       | 2 :: k :: r => let st' := bstep st (BDel k) in N.of_nat (fst st') :: enc_btn (S (S (fst st'))) (fst st') (snd st') ++ btree_trace f r st'
+      | 3 :: k :: r => btree_trace f r (bstep st (BSet k))      (* a change inside a transaction: no dump in between *)
+      | 4 :: k :: r => btree_trace f r (bstep st (BDel k))
       | _ => []
       end
   end.
